@@ -994,6 +994,7 @@ func (c *fctx) call(x *ast.CallExpr) string {
 		case "copy":
 			return c.copyCall(x)
 		case "append":
+			c.refuseAliasingAppend(x)
 			base := c.expr(x.Args[0])
 			if x.Ellipsis.IsValid() {
 				return "(" + base + " ++ " + c.expr(x.Args[1]) + ")"
@@ -1372,6 +1373,61 @@ func (c *fctx) findClosures() {
 			c.t.specs[obj] = &sp
 		}
 	}
+}
+
+// refuseAliasingAppend: slices are VALUES in the translation. `append(b, …)` where b was cut out of another slice
+// (`b := a[:0]`, `append(a[:k], …)`) writes into a's array when the capacity allows — an effect on a (and on
+// whoever else holds it, e.g. the caller) that a value cannot show. Such an append is refused, unless the slice
+// is one of the declared views (funcs_views.go), which model exactly this.
+func (c *fctx) refuseAliasingAppend(x *ast.CallExpr) {
+	base := ast.Unparen(x.Args[0])
+	if _, isView := c.viewOf(base); isView {
+		return
+	}
+	if se, ok := base.(*ast.SliceExpr); ok {
+		if _, isView := c.viewOf(se.X); !isView {
+			c.fail(x, "append to a re-slice of %s may write into its array (aliasing is not modelled for values)", c.t.pr.text(c.fi.Pkg, se.X))
+		}
+		return
+	}
+	id, ok := base.(*ast.Ident)
+	if !ok {
+		return
+	}
+	v, _ := c.info().Uses[id].(*types.Var)
+	if v == nil {
+		return
+	}
+	ast.Inspect(c.fi.Decl.Body, func(n ast.Node) bool {
+		as, ok := n.(*ast.AssignStmt)
+		if !ok || len(as.Lhs) != len(as.Rhs) {
+			return true
+		}
+		for k, l := range as.Lhs {
+			lid, ok := ast.Unparen(l).(*ast.Ident)
+			if !ok {
+				continue
+			}
+			lv, _ := c.info().Defs[lid].(*types.Var)
+			if lv == nil {
+				lv, _ = c.info().Uses[lid].(*types.Var)
+			}
+			if lv != v {
+				continue
+			}
+			if se, ok := ast.Unparen(as.Rhs[k]).(*ast.SliceExpr); ok {
+				// cutting a slice out of ITSELF and appending to it (`p = p[n:]`, `b = b[:k]`) stays within the value
+				if sid, ok := ast.Unparen(se.X).(*ast.Ident); ok && c.info().Uses[sid] == v {
+					continue
+				}
+				if _, isView := c.viewOf(se.X); isView {
+					continue
+				}
+				c.fail(x, "append to %s, which was cut out of %s: it may write into that slice's array (aliasing is not modelled for values)", v.Name(), c.t.pr.text(c.fi.Pkg, se.X))
+			}
+		}
+		return true
+	})
 }
 
 func isScanner(t types.Type) bool {
